@@ -185,6 +185,27 @@ pub fn generate(ctx: &mut Ctx) {
         }
         bi += 1;
     }
+    for n in 13usize..=20 {
+        if ctx.mine(bi) {
+            let segs: Vec<String> = (0..n).map(|i| format!("s{}", i)).collect();
+            let p = segs.join("/");
+            let mut q = segs.clone();
+            q[n - 1] = "other".into();
+            let mut r = segs.clone();
+            r[n - 1] = format!("%73{}", n - 1); // same octets, other spelling
+            let mut d = segs.clone();
+            d.insert(n / 2, ".".into());
+            d.insert(n / 2, "x".into());
+            d.insert(n / 2 + 1, "..".into());
+            for abs in ["", "/"] {
+                for (x, y) in [(p.clone(), q.join("/")), (p.clone(), r.join("/")), (p.clone(), d.join("/")), (q.join("/"), r.join("/")), (format!("{}/", p), p.clone())] {
+                    ctx.run(Case::new("comp").arg(format!("{}{}", abs, x)).arg(format!("{}{}", abs, y)).num(1));
+                    ctx.run(Case::new("pair").arg(format!("s://h/{}?q", x)).arg(format!("s://h/{}?q", y)));
+                }
+            }
+        }
+        bi += 1;
+    }
     for (a, b) in [("http", "http"), ("http", "HTTP"), ("a", "b"), ("a+", "a-")] {
         if ctx.mine(bi) {
             ctx.run(Case::new("comp").arg(a).arg(b).num(7));
